@@ -137,3 +137,75 @@ Example C09_nonvacuous_degree0 :
   | Err _ => false
   end = true.
 Proof. vm_compute. reflexivity. Qed.
+
+From NurbsV Require Import Spec.BSpline Proofs.Local Proofs.DerivProofs Proofs.QuotientRule.
+(* ---- the quotient rule (Proofs/QuotientRule.v): with num = sum w_i P_i N_i, den = sum w_i N_i and their formal derivatives (the same
+   sums over dNloc), the NURBS value R = num / den has the derivative dR = (num' den - num den') / den^2 wherever den <> 0 - in
+   epsilon-delta form over Q, from the Taylor expansions with bounded remainders of numerator and denominator and the continuity of
+   the denominator; transferred to rational_spec1 / rational_spec on every open span of a list knot vector (drational1 is that dR). ---- *)
+Theorem C09_quotient_rule_span :
+  forall (U : nat -> Q) (s p n : nat) (w P : nat -> Q) (u : Q),
+       ~ den U s p n w u == 0 ->
+       forall eps : Q,
+       0 < eps ->
+       exists delta : Q,
+         0 < delta /\
+         (forall h : Q,
+          ~ h == 0 ->
+          Qabs h < delta -> Qabs ((R U s p n w P (u + h) - R U s p n w P u) / h - dR U s p n w P u) < eps).
+Proof. exact quotient_rule. Qed.
+Print Assumptions C09_quotient_rule_span.
+
+Theorem C09_quotient_rule_rational_curve :
+  forall (U : list Q) (p : nat) (W P : list Q) (s : nat) (u : Q),
+       mono (nthq U) ->
+       nthq U s < u ->
+       u < nthq U (S s) ->
+       ~ weight_spec U p W u == 0 ->
+       forall eps : Q,
+       0 < eps ->
+       exists delta : Q,
+         0 < delta /\
+         (forall h : Q,
+          ~ h == 0 ->
+          Qabs h < delta ->
+          Qabs ((rational_spec1 U p W P (u + h) - rational_spec1 U p W P u) / h - drational1 U p W P s u) <
+          eps).
+Proof. exact rational_spec1_derivative. Qed.
+Print Assumptions C09_quotient_rule_rational_curve.
+
+Theorem C09_quotient_rule_rational_curve_points :
+  forall (U : list Q) (p d : nat) (W : list Q) (P : list (list Q)) (s : nat) (u : Q) (k : nat),
+       (k < d)%nat ->
+       mono (nthq U) ->
+       nthq U s < u ->
+       u < nthq U (S s) ->
+       ~ weight_spec U p W u == 0 ->
+       forall eps : Q,
+       0 < eps ->
+       exists delta : Q,
+         0 < delta /\
+         (forall h : Q,
+          ~ h == 0 ->
+          Qabs h < delta ->
+          Qabs
+            ((nth k (rational_spec U p d W P (u + h)) 0 - nth k (rational_spec U p d W P u) 0) / h -
+             drational1 U p W (coord k P) s u) < eps).
+Proof. exact rational_spec_derivative. Qed.
+Print Assumptions C09_quotient_rule_rational_curve_points.
+
+Theorem C09_weight_function_continuous :
+  forall (U : list Q) (p : nat) (W : list Q) (s : nat) (u : Q),
+       mono (nthq U) ->
+       nthq U s < u ->
+       u < nthq U (S s) ->
+       ~ weight_spec U p W u == 0 ->
+       exists delta : Q,
+         0 < delta /\
+         (forall h : Q,
+          Qabs h < delta ->
+          Qabs (weight_spec U p W u) / 2 <= Qabs (weight_spec U p W (u + h)) /\
+          ~ weight_spec U p W (u + h) == 0).
+Proof. exact weight_spec_continuity. Qed.
+Print Assumptions C09_weight_function_continuous.
+
